@@ -41,6 +41,14 @@ def make_spec(stage, variant, cur):
     for i, l in enumerate(spec['links']):
         if l['t'] == 'G':
             l['eta'] = [0.9, 1, 0.6][(i + variant) % 3]
+    if variant == 2:
+        # every gear mating with equal teeth numbers: ratio exactly 1, efficiency < 1
+        for e in spec['elements']:
+            if 'z' in e:
+                e['z'] = 24
+        for l in spec['links']:
+            if l['t'] == 'G':
+                l['eta'] = 0.7
     return spec
 
 
